@@ -1359,6 +1359,19 @@ class WriteTool(BaseTool):
 
                 corrections.extend(self._track_corrections(parse_input, parse_input, tokenize_repairs))
 
+                # I4: the strict parser performs the same value rewrites as the lenient one
+                # (multi-word coalescing, dropped bare lines, duplicate keys) but parse()
+                # discards their receipts; collect them so strict writes report them too.
+                try:
+                    _, strict_parse_warnings = parse_with_warnings(parse_input)
+                except (LexerError, ParserError):
+                    strict_parse_warnings = []
+                corrections.extend(
+                    self._map_parse_warnings_to_corrections(
+                        [w for w in strict_parse_warnings if w.get("type") == "lenient_parse"]
+                    )
+                )
+
             # Apply META mutations (if any)
             self._apply_mutations(doc, mutations)
 
